@@ -111,35 +111,40 @@ inductive Mark | unvisited | visited | traversed
 deriving DecidableEq, Repr, Inhabited
 
 structure DfsState where
-  marks : List (Nat × Mark) := []
+  status : Nat → Mark := fun _ => .unvisited
   sorted : List Nat := []
-deriving DecidableEq, Repr, Inhabited
 
-def DfsState.mark (s : DfsState) (v : Nat) : Mark :=
-  match s.marks.find? (·.1 == v) with
-  | some (_, m) => m
-  | none => .unvisited
 def DfsState.set (s : DfsState) (v : Nat) (m : Mark) : DfsState :=
-  { s with marks := (v, m) :: s.marks.filter (·.1 != v) }
+  { s with status := fun x => if x = v then m else s.status x }
 
 inductive DfsErr | cycle (v : Nat) | fuel
 deriving DecidableEq, Repr, Inhabited
 
-/-- `visit` -/
-def visit (g : GState) : Nat → DfsState → Nat → Except DfsErr DfsState
+/-- `visit`: structural on fuel; the loop over the children is a monadic fold -/
+def visit (children : Nat → List Nat) : Nat → DfsState → Nat → Except DfsErr DfsState
   | 0, _, _ => .error .fuel
   | fuel + 1, s, v =>
-    match s.mark v with
+    match s.status v with
     | .traversed => .ok s
     | .visited => .error (.cycle v)
-    | .unvisited => do
-      let s1 ← (g.children v).foldlM (fun st c => visit g fuel st c) (s.set v .visited)
-      pure { (s1.set v .traversed) with sorted := s1.sorted ++ [v] }
+    | .unvisited =>
+      match (children v).foldlM (fun st c => visit children fuel st c) (s.set v .visited) with
+      | .error e => .error e
+      | .ok s1 => .ok { status := (s1.set v .traversed).status, sorted := s1.sorted ++ [v] }
 
-/-- `DepthFirstSort` with the outer loop running over `order` (any permutation of the ids) -/
+/-- the outer loop of `DepthFirstSort` over `order` (any permutation of the ids: map iteration) -/
+def dfsLoop (children : Nat → List Nat) (fuel : Nat) : List Nat → DfsState → Except DfsErr DfsState
+  | [], s => .ok s
+  | v :: r, s =>
+    match s.status v with
+    | .unvisited =>
+      match visit children fuel s v with
+      | .error e => .error e
+      | .ok s1 => dfsLoop children fuel r s1
+    | _ => dfsLoop children fuel r s
+
 def dfsFrom (g : GState) (order : List Nat) : Except DfsErr (List Nat) :=
-  (order.foldlM (fun st v =>
-      if st.mark v != .unvisited then pure st else visit g (g.verts.length + 1) st v) ({} : DfsState)).map (·.sorted)
+  (dfsLoop g.children (g.verts.length + 1) order {}).map (·.sorted)
 
 def dfs (g : GState) : Except DfsErr (List Nat) := dfsFrom g g.ids
 
@@ -155,7 +160,6 @@ deriving DecidableEq, Repr, Inhabited
 /-- what a vertex' goroutine is doing -/
 inductive Flight
   | none
-  | pseudo (r : Res)          -- goroutine that only reports `nil` (skip) or `ErrorTaskSkipped`
   | waitSem | waitLock
   | idle (k : Nat)            -- between attempts: next attempt is number k
   | running (k : Nat)
@@ -168,7 +172,8 @@ deriving DecidableEq, Repr, Inhabited
 
 structure VState where
   st : St := .pending
-  fl : Flight := .none
+  fl : Flight := .none         -- the real task goroutine
+  pseudo : List Res := []      -- outstanding completions of pseudo goroutines (skip / ErrorTaskSkipped)
   sem : Bool := false          -- holds a semaphore slot
   marked : Bool := false       -- ghost: was ever set to `skip`
   real : Bool := false         -- ghost: launched as a real task
@@ -181,18 +186,16 @@ structure Cfg where
   maxParallel : Nat := 1000000
 
 structure Sched where
-  vs : List (Nat × VState)
+  vs : Nat → VState := fun _ => {}
   errs : List Entry := []
   cancelled : Bool := false
   exited : Bool := false
-deriving DecidableEq, Repr, Inhabited
 
-def Sched.get (s : Sched) (v : Nat) : VState := ((s.vs.find? (·.1 == v)).map (·.2)).getD {}
+def Sched.get (s : Sched) (v : Nat) : VState := s.vs v
 def Sched.set (s : Sched) (v : Nat) (x : VState) : Sched :=
-  { s with vs := s.vs.map fun p => if p.1 == v then (v, x) else p }
-def Sched.has (s : Sched) (v : Nat) : Bool := s.vs.any (·.1 == v)
+  { s with vs := fun y => if y = v then x else s.vs y }
 
-def initSched (g : GState) : Sched := { vs := g.ids.map fun v => (v, {}) }
+def initSched : Sched := {}
 
 inductive Event
   | recv (v : Nat) (r : Res)
@@ -208,11 +211,11 @@ def ready (c : Cfg) (s : Sched) (v : Nat) : Bool :=
   ((s.get v).st == .pending || (s.get v).st == .skip) &&
   (c.g.children v).all fun ch => (s.get ch).st != .pending && (s.get ch).st != .inProgress
 
-def anyInProgress (s : Sched) : Bool := s.vs.any fun p => p.2.st == .inProgress
-def allDone (s : Sched) : Bool := s.vs.all fun p => p.2.st == .done
+def anyInProgress (c : Cfg) (s : Sched) : Bool := c.g.ids.any fun v => (s.get v).st == .inProgress
+def allDone (c : Cfg) (s : Sched) : Bool := c.g.ids.all fun v => (s.get v).st == .done
 /-- may the scheduler pick now (serial mode: nothing may be in progress) -/
-def mayPick (c : Cfg) (s : Sched) : Bool := !(c.serial && anyInProgress s)
-def holders (s : Sched) : Nat := (s.vs.filter fun p => p.2.sem).length
+def mayPick (c : Cfg) (s : Sched) : Bool := !(c.serial && anyInProgress c s)
+def holders (c : Cfg) (s : Sched) : Nat := (c.g.ids.filter fun v => (s.get v).sem).length
 
 /-- all transitive parents of `v` (fuel = number of vertices) -/
 def ancestors (g : GState) : Nat → Nat → List Nat
@@ -230,21 +233,24 @@ def step? (c : Cfg) (s : Sched) (ev : Event) : Option Sched :=
   if s.exited && (match ev with | .semRel _ => false | _ => true) then none else
   match ev with
   | .pickReal v =>
-    if s.has v && mayPick c s && ready c s v && (s.get v).st == .pending && s.errs.isEmpty then
+    if c.g.has v && mayPick c s && ready c s v && (s.get v).st == .pending && s.errs.isEmpty then
       some (s.set v { s.get v with st := .inProgress, fl := .waitSem, real := true })
     else none
   | .pickSkip v =>
-    if s.has v && mayPick c s && ready c s v && (s.get v).st == .skip then
-      some (s.set v { s.get v with st := .inProgress, fl := .pseudo .ok })
+    if c.g.has v && mayPick c s && ready c s v && (s.get v).st == .skip then
+      some (s.set v { s.get v with st := .inProgress, pseudo := .ok :: (s.get v).pseudo })
     else none
   | .pickErr v =>
-    if s.has v && mayPick c s && ready c s v && (s.get v).st == .pending && !s.errs.isEmpty then
-      some (s.set v { s.get v with st := .inProgress, fl := .pseudo .taskSkipped })
+    if c.g.has v && mayPick c s && ready c s v && (s.get v).st == .pending && !s.errs.isEmpty then
+      some (s.set v { s.get v with st := .inProgress, pseudo := .taskSkipped :: (s.get v).pseudo })
     else none
   | .recv v r =>
     let x := s.get v
-    if s.has v && (x.fl == .pseudo r || x.fl == .sending r) then
-      let s1 := s.set v { x with st := .done, fl := .none, out := some r }
+    if c.g.has v && (x.pseudo.contains r || x.fl == .sending r) then
+      let x1 : VState :=
+        if x.fl == .sending r then { x with st := .done, fl := .none, out := some r }
+        else { x with st := .done, pseudo := x.pseudo.erase r, out := some r }
+      let s1 := s.set v x1
       match r with
       | .ok => some s1
       | .skipParents => some (markAncestors c s1 v)
@@ -255,13 +261,13 @@ def step? (c : Cfg) (s : Sched) (ev : Event) : Option Sched :=
     if s.cancelled then none else some { s with cancelled := true, errs := s.errs ++ [.cancelled] }
   | .idle =>
     -- `getNextVertex` found nothing to launch
-    if allDone s then none
-    else if mayPick c s && s.vs.any (fun p => ready c s p.1) then none
+    if allDone c s then none
+    else if mayPick c s && c.g.ids.any (fun v => ready c s v) then none
     else some s
-  | .exit => if allDone s then some { s with exited := true } else none
+  | .exit => if allDone c s then some { s with exited := true } else none
   | .semAcq v =>
     let x := s.get v
-    if x.fl == .waitSem && holders s < c.maxParallel then some (s.set v { x with fl := .waitLock, sem := true })
+    if x.fl == .waitSem && holders c s < c.maxParallel then some (s.set v { x with fl := .waitLock, sem := true })
     else none
   | .lockAcq v =>
     let x := s.get v
@@ -394,11 +400,11 @@ def handle (d : DriverState) (ws : List String) : DriverState × Option String :
   | ["run"] =>
     let g := buildGraph d.ops
     let c : Cfg := { g := g, serial := d.serial, maxParallel := d.maxParallel }
-    match accept c (initSched g) d.events 0 with
+    match accept c initSched d.events 0 with
     | .error i => (d, some ("R refused=" ++ toString i))
     | .ok s =>
       (d, some ("R accepted exited=" ++ (if s.exited then "1" else "0") ++ " errs=" ++
-        ";".intercalate (s.errs.map entryStr) ++ " done=" ++ (if allDone s then "1" else "0")))
+        ";".intercalate (s.errs.map entryStr) ++ " done=" ++ (if allDone c s then "1" else "0")))
   | _ => (d, some "bad-op")
 
 end GoModel.Dag
